@@ -63,12 +63,12 @@ def starts(lb, ub, tstar, box, mode):
 
 def job(args):
     name, cfgs, seed = args
-    out = {"viol": [], "runs": 0, "keys": [], "moved": 0, "truth": 0, "unsorted_bounds": 0, "active_bound": 0, "timeouts": 0, "skipped_nonpositive": 0, "undefined_cost": 0}
+    out = {"viol": [], "runs": 0, "keys": [], "moved": 0, "truth": 0, "unsorted_bounds": 0, "active_bound": 0, "timeouts": 0, "skipped_nonpositive": 0, "undefined_cost": 0, "refits_judged": 0, "negative_start_cost": 0}
     c = detmodels.CATALOGUE[name]
     d = c["d"]
     states, params = d["states"], d["params"]
     for cfg in cfgs:
-        (kind, cols, gk, tp, boxkind, sname, container, wkind) = cfg
+        (kind, cols, gk, tp, boxkind, sname, container, wkind, skind, refits) = cfg
         theta_gen, x0 = c["theta"][gk], c["x0"][gk]
         t0 = 0.0
         y = observations(name, d, theta_gen, x0, t0, TIMES, cols, "Square")       # noise free
@@ -93,7 +93,8 @@ def job(args):
         start = st[sname]
         case = {"model": name, "loss": kind, "state_name": cols, "generating_theta": theta_gen, "x0": x0, "target_param": tp, "box": boxkind,
                 "lb": None if lb is None else list(lb), "ub": None if ub is None else list(ub), "start": list(start), "start_kind": sname,
-                "container": container, "weights": wkind}
+                "container": container, "weights": wkind, "spread": skind, "refits": refits}
+        spread = {"default": None, "small": 0.1 if kind == "Normal" else 0.7}[skind] if kind in lossref.SPREAD_KW else None
         sig = {"loss": kind, "box": boxkind, "start": sname.split("(")[0], "target_param": None if tp is None else (
             "model-order" if tp == [z for z in params if z in tp] else "permuted"), "nparam": q}
         conv = {"list": list, "array": lambda a: np.array(a, float), "tuple": tuple}[container]
@@ -102,7 +103,7 @@ def job(args):
         try:
             m, _ = build.build(d)
             m.parameters = list(theta_gen)
-            obj = lossref.make_loss(kind, list(start), m, list(x0), t0, TIMES, yin, cols if p > 1 else cols[0], state_weight=win, target_param=tp)
+            obj = lossref.make_loss(kind, list(start), m, list(x0), t0, TIMES, yin, cols if p > 1 else cols[0], state_weight=win, target_param=tp, spread=spread)
             kw = {}
             if lb is not None:
                 kw["lb"] = conv(lb)
@@ -113,6 +114,11 @@ def job(args):
             else:
                 xhat = obj.fit(conv(start), **kw)
             xhat = np.asarray(xhat, float)
+            # fit called again from the estimate it returned, on the same object (a non-initial state of the optimiser's
+            # world: the start is now on active bounds and at a point where the line search has nothing left to gain)
+            chain = [xhat]
+            for _r in range(refits):
+                chain.append(np.asarray(obj.fit(conv(chain[-1]), **kw), float))
             signal.setitimer(signal.ITIMER_PROF, 0)
         except _Timeout:
             out["timeouts"] += 1
@@ -132,7 +138,7 @@ def job(args):
             if kind != "Square" and kind != "Normal" and np.min(yhat) <= 0:
                 return float("nan")
             wf = None if w is None else np.broadcast_to(np.asarray(w, float), (n, p))
-            return lossref.loss_value(kind, y, yhat, wf if kind in ("Square", "Normal") else None, None)
+            return lossref.loss_value(kind, y, yhat, wf if kind in ("Square", "Normal") else None, spread)
 
         if xhat.shape != (q,) or not np.all(np.isfinite(xhat)):
             out["viol"].append((dict(sig, what="shape-or-nonfinite"), dict(case, xhat=xhat.tolist())))
@@ -153,6 +159,23 @@ def job(args):
             if not np.all(np.abs(xhat - np.asarray(tstar)) <= 1e-6 * (1 + np.abs(tstar))):
                 out["viol"].append((dict(sig, what="left-the-generating-parameters"), dict(case, xhat=xhat.tolist())))
                 continue
+        bad = False
+        for r_, (a_, b_) in enumerate(zip(chain[:-1], chain[1:])):
+            ins = b_.shape == (q,) and np.all(np.isfinite(b_)) and (lb is None or np.all(b_ >= np.asarray(lb))) and (ub is None or np.all(b_ <= np.asarray(ub)))
+            ca, cb = refcost(a_), (refcost(b_) if b_.shape == (q,) and np.all(np.isfinite(b_)) else float("nan"))
+            if not ins:
+                out["viol"].append((dict(sig, what="outside-box", refit=r_ + 1), dict(case, chain=[c_.tolist() for c_ in chain])))
+                bad = True
+                break
+            if np.isfinite(ca) and np.isfinite(cb) and not (cb <= ca + 1e-6 * (1 + abs(ca))):
+                out["viol"].append((dict(sig, what="worse-than-start", refit=r_ + 1), dict(case, chain=[c_.tolist() for c_ in chain], cost_start=ca, cost_returned=cb)))
+                bad = True
+                break
+            out["refits_judged"] += 1
+        if bad:
+            continue
+        if c0 < 0:
+            out["negative_start_cost"] += 1
         moved = float(np.max(np.abs(xhat - start))) > 1e-3
         out["moved"] += moved
         if lb is not None and ub is not None and (list(lb) != sorted(lb) or list(ub) != sorted(ub)):
@@ -195,7 +218,9 @@ def main(argv=None):
                         k = len(cfgs)
                         container = ("list", "array", "tuple")[k % 3]
                         wkind = "per-state" if (kind in ("Square", "Normal") and k % 4 == 1) else "none"
-                        cfgs.append((kind, cols, gk, tp, boxkind, sname, container, wkind))
+                        skind = "small" if (kind in lossref.SPREAD_KW and k % 3 == 2) else "default"
+                        refits = 2 if (k % 5 == 0 and boxkind not in ("lower-only", "upper-only", "none")) else 0
+                        cfgs.append((kind, cols, gk, tp, boxkind, sname, container, wkind, skind, refits))
         if quick:
             cfgs = cfgs[run.seed % 6::6]
         total += len(cfgs)
@@ -209,7 +234,7 @@ def main(argv=None):
         keys.update(r["keys"])
         for sig, case in r["viol"]:
             run.violation(sig, case)
-    for k in ("moved", "truth", "unsorted_bounds", "active_bound", "timeouts", "skipped_nonpositive", "undefined_cost"):
+    for k in ("moved", "truth", "unsorted_bounds", "active_bound", "timeouts", "skipped_nonpositive", "undefined_cost", "refits_judged", "negative_start_cost"):
         run.count("fits_" + k, sum(r[k] for r in res))
     run.sample({"model": jobs[0][0], "config": list(map(str, jobs[0][1][0]))})
     run.sample({"model": jobs[-1][0], "config": list(map(str, jobs[-1][1][-1]))})
@@ -218,7 +243,9 @@ def main(argv=None):
         "rule": "models %s x 2 generating parameter sets x 5 loss classes x observed-state selections (last state; first two reversed) x target_param "
                 "{all, all reversed, a subset (out of model order where possible)} x boxes {wide, tight excluding the truth above/below, bounds "
                 "decreasing along the vector, lower only, upper only, none} x starts {3^q lattice inside the box, the generating parameters, on a "
-                "lower face, on an upper face} x bound containers {list, ndarray, tuple+full_output}%s: every combination calls the real fit. "
+                "lower face, on an upper face} x bound containers {list, ndarray, tuple+full_output} x spread {default, small: Normal sigma 0.1 (negative costs), Gamma shape 0.7, "
+                "NegBinom k 0.7}%s: every combination calls the real fit; every fifth configuration calls fit twice more, each time from the "
+                "estimate just returned (same object), and every link of that chain is judged like a first call. "
                 "returned point inside the box exactly; reference cost (independent loss formula on the DOP853 reference trajectory) at the "
                 "returned point <= at the start; started at the generating parameters with noise-free data (Square, Normal, Gamma) the result is "
                 "those parameters (1e-6). distinct non-trivial = distinct configurations where the optimiser moved by >1e-3 or started at the truth" % (
